@@ -94,7 +94,7 @@ def main():
     if hits:
         broken.append("forbidden construct in Lean sources: " + "; ".join(hits[:5]))
     if proof_ok:
-        ok, axioms, alog = common.audit_axioms(pid, mod.LEAN_PROOF_TARGETS[0], mod.THEOREMS)
+        ok, axioms, alog = common.audit_axioms(pid, mod.LEAN_PROOF_TARGETS, mod.THEOREMS)
         ctx.axioms = axioms
         for t in mod.THEOREMS:
             ax = axioms.get(t)
